@@ -192,15 +192,38 @@ theorem stepIfEnd_print (c : List Nat) (stk : List (Frame R)) (pre0 : List (Tag 
   have h5 : W1.ifSuffixLength = 5 := by decide
   simp only [stepIfEnd, stAt, finderNext, hnext, bind, Except.bind, h5, Nat.add_sub_cancel]
 
+/-- `<else />` -/
+def ELSE : List Nat := [60, 101, 108, 115, 101, 32, 47, 62]
+
+theorem stepElse_print (cfg : ScanCfg R) (c : List Nat) (stk : List (Frame R)) (pre0 : List (Tag R))
+    (done : List (IfCase R)) (cur : List (Item R)) (curOff off : Nat) (sub : List (Tag R)) (q o2 m2 : Nat)
+    (h5 : c[q + 5]? = some 32) (h6 : c[q + 6]? = some 47) (h7 : c[q + 7]? = some 62)
+    (hnext : next c (q + 8) = .ok (o2, m2)) :
+    stepElse cfg c (stAt (.ifT pre0 done cur curOff off :: stk) sub (q + 5) 11) =
+      .ok (stAt (.ifT pre0 (done ++ [.mk cur sub curOff q]) [] (q + 8) off :: stk) [] o2 m2) := by
+  have hlt7 : q + 7 < c.length := (List.getElem?_eq_some_iff.mp h7).1
+  have hpl : W1.elsePrefixLength = 5 := by decide
+  have hscan : elseScan c (c.length + 1) (q + 5) = .ok (q + 7, false) := by
+    rw [show c.length + 1 = (c.length - 2) + 1 + 1 + 1 by omega]
+    have h6' : c[q + 5 + 1]? = some 47 := by rw [show q + 5 + 1 = q + 6 by omega]; exact h6
+    have h7' : c[q + 5 + 1 + 1]? = some 62 := by rw [show q + 5 + 1 + 1 = q + 7 by omega]; exact h7
+    simp [elseScan, rd_some c (q + 5) 32 h5, rd_some c _ 47 h6', rd_some c _ 62 h7', bind, Except.bind,
+      show q + 5 < c.length by omega, show q + 5 + 1 < c.length by omega, show q + 5 + 1 + 1 < c.length by omega,
+      show W1.multiLineLastChar = 62 by decide, show W1.ifPrefixFirst = 105 by decide]
+  simp only [stepElse, stAt, hscan, bind, Except.bind, Bool.false_eq_true, if_false, hlt7, if_true, hpl,
+    Nat.add_sub_cancel, finderNext, hnext]
+
 /-! ### block templates: segments and `<if case="e">segments</if>` -/
 
 inductive Blk where
   | segs (l : List Seg)
   | ifc (e : List Nat) (body : List Seg)
+  | ife (e : List Nat) (thenB elseB : List Seg)
 
 def printBlk : Blk → List Nat
   | .segs l => printSegs l
   | .ifc e b => IFOPEN ++ e ++ [34, 62] ++ printSegs b ++ IFEND
+  | .ife e t f => IFOPEN ++ e ++ [34, 62] ++ printSegs t ++ ELSE ++ printSegs f ++ IFEND
 
 def printBlks : List Blk → List Nat
   | [] => []
@@ -209,6 +232,7 @@ def printBlks : List Blk → List Nat
 def Blk.toTpls : Blk → List Tpl
   | .segs l => segsTpl l
   | .ifc e b => [.ifc [(some e, segsTpl b)]]
+  | .ife e t f => [.ifc [(some e, segsTpl t), (none, segsTpl f)]]
 
 def blksTpl : List Blk → List Tpl
   | [] => []
@@ -234,15 +258,31 @@ theorem printBlks_eq (bs : List Blk) : printList (blksTpl bs) = printBlks bs := 
       have h3 : str "</if>" = IFEND := by rfl
       simp only [Blk.toTpls, printBlk, printList, printTpl, printBranches, if_true, h1, h2, h3, printSegs_eq,
         List.append_nil, List.append_assoc]
+    | ife e t f =>
+      have h1 : str "<if case=\"" = IFOPEN := by rfl
+      have h2 : str "\">" = [34, 62] := by rfl
+      have h3 : str "</if>" = IFEND := by rfl
+      have h4 : str "<else />" = ELSE := by rfl
+      simp only [Blk.toTpls, printBlk, printList, printTpl, printBranches, if_true, h1, h2, h3, h4, printSegs_eq,
+        List.append_nil, List.append_assoc]
 
 def Blk.ok : Blk → Prop
   | .segs l => ∀ s ∈ l, s.ok
   | .ifc e b => plainL e ∧ (∀ x ∈ e, x ≠ 34) ∧ ∀ s ∈ b, s.ok
+  | .ife e t f => plainL e ∧ (∀ x ∈ e, x ≠ 34) ∧ (∀ s ∈ t, s.ok) ∧ ∀ s ∈ f, s.ok
+
+/-- the case text of an if / else block is an expression (otherwise the code prints nothing at all,
+the reference goes on to the `else` part) -/
+def Blk.caseOk (rn : List Nat → Option (Num R)) : Blk → Prop
+  | .ife e _ _ => ∀ items : List (Item R),
+      Qentem.Expr.parseTop ({ readNum := rn } : ScanCfg R) (e ++ [34]) 0 e.length = .ok items → items ≠ []
+  | _ => True
 
 def blkCost : List Blk → Nat
   | [] => 0
   | .segs l :: r => nTags l + blkCost r
   | .ifc _ b :: r => nTags b + 2 + blkCost r
+  | .ife _ t f :: r => nTags t + nTags f + 3 + blkCost r
 
 def tagsOfB (cfg : ScanCfg R) (c : List Nat) (p : Nat) : List Blk → List (Tag R)
   | [] => []
@@ -252,6 +292,18 @@ def tagsOfB (cfg : ScanCfg R) (c : List Nat) (p : Nat) : List Blk → List (Tag 
         (p + 12 + e.length) (p + 12 + e.length + (printSegs b).length)] p
       (p + 12 + e.length + (printSegs b).length + 5) ::
       tagsOfB cfg c (p + 12 + e.length + (printSegs b).length + 5) r
+  | .ife e t f :: r =>
+    .ifT [.mk (itemsAt cfg c (p + 10) (p + 10 + e.length)) (tagsOf cfg c (p + 12 + e.length) t)
+        (p + 12 + e.length) (p + 12 + e.length + (printSegs t).length),
+        .mk [] (tagsOf cfg c (p + 12 + e.length + (printSegs t).length + 8) f)
+          (p + 12 + e.length + (printSegs t).length + 8)
+          (p + 12 + e.length + (printSegs t).length + 8 + (printSegs f).length)] p
+      (p + 12 + e.length + (printSegs t).length + 8 + (printSegs f).length + 5) ::
+      tagsOfB cfg c (p + 12 + e.length + (printSegs t).length + 8 + (printSegs f).length + 5) r
+
+theorem printBlk_ife_len (e : List Nat) (t f : List Seg) :
+    (printBlk (.ife e t f)).length = 12 + e.length + (printSegs t).length + 8 + (printSegs f).length + 5 := by
+  simp [printBlk, IFOPEN, IFEND, ELSE]; omega
 
 theorem printBlk_if_len (e : List Nat) (b : List Seg) :
     (printBlk (.ifc e b)).length = 12 + e.length + (printSegs b).length + 5 := by
@@ -378,7 +430,144 @@ theorem parseMain_blks (cfg : ScanCfg R) (c : List Nat) (hn : c.length + 16 < 42
       have hpl : (pre ++ printBlk (Blk.ifc e body)).length = pre.length + 12 + e.length + (printSegs body).length + 5 := by
         rw [List.length_append, hlenb]; omega
       simp only [tagsOfB, hia, hpl, List.append_assoc, List.singleton_append]
-
+    | ife e tb fb =>
+      simp only [Blk.ok] at hb
+      obtain ⟨hpe, hq34, htb, hfb⟩ := hb
+      simp only [printBlks] at hc hfin
+      have hlenb := printBlk_ife_len e tb fb
+      have hc1 : c = pre ++ (IFOPEN ++ e ++ [34, 62] ++
+          (printSegs tb ++ ELSE ++ printSegs fb ++ IFEND ++ (printBlks r ++ post))) := by
+        rw [hc]; simp [printBlk, List.append_assoc]
+      have ht := ifText_of c pre e _ hc1
+      have g := fun i (hi : i < 10) => ht.open_ i hi
+      have hat : next c pre.length = .ok (pre.length + 3, 9) :=
+        next_at_if c pre.length hn (g 0 (by omega)) (g 1 (by omega)) (g 2 (by omega)) (g 4 (by omega)) (g 6 (by omega))
+      rw [hat] at hnext
+      simp only [Except.ok.injEq, Prod.mk.injEq] at hnext
+      obtain ⟨rfl, rfl⟩ := hnext
+      obtain ⟨items0, hitems0⟩ := Qentem.Expr.parseTop_total ({ readNum := cfg.readNum } : ScanCfg R) (e ++ [34]) 0 e.length (by simp)
+      obtain ⟨items', hex, _⟩ := exprs_case cfg c pre e _ hc1 hpe items0 hitems0
+      have hlt12 : pre.length + 12 + e.length ≤ c.length := ht.len
+      obtain ⟨o1, m1, hn1, _⟩ := next_safe_total c (pre.length + 12 + e.length) hlt12
+      have hstep := stepIf_print cfg c pre e _ hc1 hq34 (by simp [IFEND, ELSE, List.length_append]; omega) [] acc items' hex o1 m1 hn1
+      have hl2 : (pre ++ (IFOPEN ++ e ++ [34, 62])).length = pre.length + 12 + e.length := by simp [IFOPEN]; omega
+      have hc3 : c = (pre ++ (IFOPEN ++ e ++ [34, 62]) ++ printSegs tb) ++ (ELSE ++ (printSegs fb ++ IFEND ++ (printBlks r ++ post))) := by
+        rw [hc1]; simp [List.append_assoc]
+      have hl3 : (pre ++ (IFOPEN ++ e ++ [34, 62]) ++ printSegs tb).length = pre.length + 12 + e.length + (printSegs tb).length := by
+        rw [List.length_append, hl2]
+      have hel : ∀ i (hi : i < 8), c[pre.length + 12 + e.length + (printSegs tb).length + i]? = some (ELSE[i]'(by simp [ELSE]; exact hi)) := by
+        intro i hi
+        have := get_at (pre ++ (IFOPEN ++ e ++ [34, 62]) ++ printSegs tb) ELSE (printSegs fb ++ IFEND ++ (printBlks r ++ post)) i (by simp [ELSE]; exact hi)
+        rw [hl3] at this; rw [hc3]; exact this
+      have helse : next c (pre.length + 12 + e.length + (printSegs tb).length) =
+          .ok (pre.length + 12 + e.length + (printSegs tb).length + 5, 11) :=
+        next_at_else c _ hn (hel 0 (by omega)) (hel 1 (by omega)) (hel 2 (by omega)) (hel 3 (by omega)) (hel 4 (by omega))
+          (hel 6 (by omega))
+      have hc2 : c = (pre ++ (IFOPEN ++ e ++ [34, 62])) ++ (printSegs tb ++ (ELSE ++ (printSegs fb ++ IFEND ++ (printBlks r ++ post)))) := by
+        rw [hc1]; simp [List.append_assoc]
+      have hrun1 := parseMain_segs cfg c hn [.ifT acc [] items' (pre.length + 12 + e.length) pre.length]
+        (ELSE ++ (printSegs fb ++ IFEND ++ (printBlks r ++ post))) tb (pre ++ (IFOPEN ++ e ++ [34, 62])) []
+        (fuel + blkCost r + 1 + nTags fb + 1) o1 m1 _ _
+        hc2 htb (fun s _ => Seg.scanOk_all _ s) (by rw [hl2]; exact hn1) (by rw [hl2]; exact helse)
+      rw [hl2] at hrun1
+      simp only [List.nil_append] at hrun1
+      have hb2_le : pre.length + 12 + e.length + (printSegs tb).length + 8 ≤ c.length := by
+        rw [hc1]; simp [IFOPEN, ELSE]; omega
+      obtain ⟨o3, m3, hn3, _⟩ := next_safe_total c (pre.length + 12 + e.length + (printSegs tb).length + 8) hb2_le
+      have hels := stepElse_print cfg c [] acc [] items' (pre.length + 12 + e.length) pre.length
+        (tagsOf cfg c (pre.length + 12 + e.length) tb) (pre.length + 12 + e.length + (printSegs tb).length) o3 m3
+        (hel 5 (by omega)) (hel 6 (by omega)) (hel 7 (by omega)) hn3
+      have hc4 : c = (pre ++ (IFOPEN ++ e ++ [34, 62]) ++ printSegs tb ++ ELSE) ++ (printSegs fb ++ (IFEND ++ (printBlks r ++ post))) := by
+        rw [hc1]; simp [List.append_assoc]
+      have hl4 : (pre ++ (IFOPEN ++ e ++ [34, 62]) ++ printSegs tb ++ ELSE).length = pre.length + 12 + e.length + (printSegs tb).length + 8 := by
+        rw [List.length_append, hl3]; simp [ELSE]
+      have hq : ∀ i (hi : i < 5), c[pre.length + 12 + e.length + (printSegs tb).length + 8 + (printSegs fb).length + i]? = some (IFEND[i]'(by simp [IFEND]; exact hi)) := by
+        intro i hi
+        have hc5 : c = (pre ++ (IFOPEN ++ e ++ [34, 62]) ++ printSegs tb ++ ELSE ++ printSegs fb) ++ (IFEND ++ (printBlks r ++ post)) := by
+          rw [hc1]; simp [List.append_assoc]
+        have := get_at (pre ++ (IFOPEN ++ e ++ [34, 62]) ++ printSegs tb ++ ELSE ++ printSegs fb) IFEND (printBlks r ++ post) i (by simp [IFEND]; exact hi)
+        have hl5 : (pre ++ (IFOPEN ++ e ++ [34, 62]) ++ printSegs tb ++ ELSE ++ printSegs fb).length =
+            pre.length + 12 + e.length + (printSegs tb).length + 8 + (printSegs fb).length := by
+          rw [List.length_append, hl4]
+        rw [hl5] at this; rw [hc5]; exact this
+      have hend : next c (pre.length + 12 + e.length + (printSegs tb).length + 8 + (printSegs fb).length) =
+          .ok (pre.length + 12 + e.length + (printSegs tb).length + 8 + (printSegs fb).length + 5, 10) :=
+        next_at_ifend c _ hn (hq 0 (by omega)) (hq 1 (by omega)) (hq 2 (by omega)) (hq 3 (by omega)) (hq 4 (by omega))
+      have hrun2 := parseMain_segs cfg c hn
+        [.ifT acc ([] ++ [IfCase.mk items' (tagsOf cfg c (pre.length + 12 + e.length) tb) (pre.length + 12 + e.length)
+          (pre.length + 12 + e.length + (printSegs tb).length)]) [] (pre.length + 12 + e.length + (printSegs tb).length + 8) pre.length]
+        (IFEND ++ (printBlks r ++ post)) fb (pre ++ (IFOPEN ++ e ++ [34, 62]) ++ printSegs tb ++ ELSE) []
+        (fuel + blkCost r + 1) o3 m3 _ _
+        hc4 hfb (fun s _ => Seg.scanOk_all _ s) (by rw [hl4]; exact hn3) (by rw [hl4]; exact hend)
+      rw [hl4] at hrun2
+      simp only [List.nil_append] at hrun2
+      have hend_le : pre.length + 12 + e.length + (printSegs tb).length + 8 + (printSegs fb).length + 5 ≤ c.length := by
+        rw [hc1]; simp [IFOPEN, IFEND, ELSE]; omega
+      obtain ⟨o2, m2, hn2, _⟩ := next_safe_total c _ hend_le
+      have hclose := stepIfEnd_print c [] acc
+        [IfCase.mk items' (tagsOf cfg c (pre.length + 12 + e.length) tb) (pre.length + 12 + e.length)
+          (pre.length + 12 + e.length + (printSegs tb).length)] [] (pre.length + 12 + e.length + (printSegs tb).length + 8) pre.length
+        (tagsOf cfg c (pre.length + 12 + e.length + (printSegs tb).length + 8) fb)
+        (pre.length + 12 + e.length + (printSegs tb).length + 8 + (printSegs fb).length) o2 m2 hn2
+      have hpl : (pre ++ printBlk (Blk.ife e tb fb)).length =
+          pre.length + 12 + e.length + (printSegs tb).length + 8 + (printSegs fb).length + 5 := by
+        rw [List.length_append, hlenb]; omega
+      have h2 := ih (pre ++ printBlk (.ife e tb fb)) (acc ++ [Tag.ifT
+          [IfCase.mk items' (tagsOf cfg c (pre.length + 12 + e.length) tb) (pre.length + 12 + e.length)
+            (pre.length + 12 + e.length + (printSegs tb).length),
+           IfCase.mk [] (tagsOf cfg c (pre.length + 12 + e.length + (printSegs tb).length + 8) fb)
+            (pre.length + 12 + e.length + (printSegs tb).length + 8)
+            (pre.length + 12 + e.length + (printSegs tb).length + 8 + (printSegs fb).length)] pre.length
+          (pre.length + 12 + e.length + (printSegs tb).length + 8 + (printSegs fb).length + 5)]) fuel o2 m2 o' m'
+        (by rw [hc]; simp [List.append_assoc]) hokr (by rw [hpl]; exact hn2)
+        (by rw [← hfin]; congr 1; simp only [List.length_append]; omega)
+      rw [show fuel + blkCost (Blk.ife e tb fb :: r) = (fuel + blkCost r + 1 + nTags fb + 1 + nTags tb) + 1 by
+        simp [blkCost]; omega]
+      have hd9 : step cfg c (stAt [] acc (pre.length + 3) 9) = stepIf cfg c (stAt [] acc (pre.length + 3) 9) := by
+        simp only [step, stAt]; rfl
+      rw [show parseMain cfg c ((fuel + blkCost r + 1 + nTags fb + 1 + nTags tb) + 1) (stAt [] acc (pre.length + 3) 9) =
+          parseMain cfg c (fuel + blkCost r + 1 + nTags fb + 1 + nTags tb)
+            (stAt [.ifT acc [] items' (pre.length + 12 + e.length) pre.length] [] o1 m1) by
+        simp only [parseMain]
+        rw [if_pos (by simp [stAt]), hd9, hstep]
+        rfl]
+      rw [hrun1]
+      have hd11 : ∀ st : PState R, st.mtch = 11 → step cfg c st = stepElse cfg c st := by
+        intro st h; simp only [step, h]; rfl
+      have hd10 : ∀ st : PState R, st.mtch = 10 → step cfg c st = stepIfEnd c st := by
+        intro st h; simp only [step, h]; rfl
+      rw [show parseMain cfg c (fuel + blkCost r + 1 + nTags fb + 1)
+            (stAt [.ifT acc [] items' (pre.length + 12 + e.length) pre.length]
+              (tagsOf cfg c (pre.length + 12 + e.length) tb)
+              (pre.length + 12 + e.length + (printSegs tb).length + 5) 11) =
+          parseMain cfg c (fuel + blkCost r + 1 + nTags fb)
+            (stAt [.ifT acc ([] ++ [IfCase.mk items' (tagsOf cfg c (pre.length + 12 + e.length) tb) (pre.length + 12 + e.length)
+              (pre.length + 12 + e.length + (printSegs tb).length)]) [] (pre.length + 12 + e.length + (printSegs tb).length + 8) pre.length]
+              [] o3 m3) by
+        simp only [parseMain]
+        rw [if_pos (by simp [stAt]), hd11 _ rfl, hels]
+        rfl]
+      simp only [List.nil_append]
+      rw [hrun2]
+      rw [show parseMain cfg c (fuel + blkCost r + 1)
+            (stAt [.ifT acc [IfCase.mk items' (tagsOf cfg c (pre.length + 12 + e.length) tb) (pre.length + 12 + e.length)
+              (pre.length + 12 + e.length + (printSegs tb).length)] [] (pre.length + 12 + e.length + (printSegs tb).length + 8) pre.length]
+              (tagsOf cfg c (pre.length + 12 + e.length + (printSegs tb).length + 8) fb)
+              (pre.length + 12 + e.length + (printSegs tb).length + 8 + (printSegs fb).length + 5) 10) =
+          parseMain cfg c (fuel + blkCost r)
+            (stAt [] (acc ++ [Tag.ifT ([IfCase.mk items' (tagsOf cfg c (pre.length + 12 + e.length) tb) (pre.length + 12 + e.length)
+                (pre.length + 12 + e.length + (printSegs tb).length)] ++
+              [IfCase.mk [] (tagsOf cfg c (pre.length + 12 + e.length + (printSegs tb).length + 8) fb)
+                (pre.length + 12 + e.length + (printSegs tb).length + 8)
+                (pre.length + 12 + e.length + (printSegs tb).length + 8 + (printSegs fb).length)]) pre.length
+              (pre.length + 12 + e.length + (printSegs tb).length + 8 + (printSegs fb).length + 5)]) o2 m2) by
+        simp only [parseMain, List.nil_append]
+        rw [if_pos (by simp [stAt]), hd10 _ rfl, hclose]
+        rfl]
+      simp only [List.cons_append, List.nil_append]
+      rw [h2]
+      have hia : itemsAt cfg c (pre.length + 10) (pre.length + 10 + e.length) = items' := by simp only [itemsAt, hex]
+      simp only [tagsOfB, hia, hpl, List.append_assoc, List.singleton_append]
 
 /-- `parse_blks`: the printed block template parses to exactly the implied tags -/
 theorem parse_blks (cfg : ScanCfg R) (bs : List Blk) (hok : ∀ b ∈ bs, b.ok)
@@ -400,6 +589,9 @@ theorem parse_blks (cfg : ScanCfg R) (bs : List Blk) (hok : ∀ b ∈ bs, b.ok)
       | segs s => simp only [blkCost, printBlks, printBlk, List.length_append]; have := nTags_le s; omega
       | ifc e body =>
         simp only [blkCost, printBlks, List.length_append, printBlk_if_len]; have := nTags_le body; omega
+      | ife e tb fb =>
+        simp only [blkCost, printBlks, List.length_append, printBlk_ife_len]
+        have := nTags_le tb; have := nTags_le fb; omega
   have hm := parseMain_blks cfg (printBlks bs) hn [] bs [] ([] : List (Tag R))
     (2 * (printBlks bs).length + 4 - blkCost bs) o m _ _ (by simp) hok hnx hend
   have hfu : 2 * (printBlks bs).length + 4 - blkCost bs + blkCost bs = 2 * (printBlks bs).length + 4 := by
@@ -603,6 +795,7 @@ theorem render_segs_end (cx : RCtx R) (cfg : ScanCfg R) (hg : cx.guardIndexRead 
 def expBlk (cx : RCtx R) : Blk → List Nat
   | .segs l => expSegs cx l
   | .ifc e b => if (isTrue (evalText (specOf cx) [] e 34) == some true) = true then expSegs cx b else []
+  | .ife e t f => if (isTrue (evalText (specOf cx) [] e 34) == some true) = true then expSegs cx t else expSegs cx f
 
 def expBlks (cx : RCtx R) : List Blk → List Nat
   | [] => []
@@ -611,6 +804,7 @@ def expBlks (cx : RCtx R) : List Blk → List Nat
 def Blk.pathOk : Blk → Prop
   | .segs l => ∀ s ∈ l, s.pathOk
   | .ifc _ b => ∀ s ∈ b, s.pathOk
+  | .ife _ t f => (∀ s ∈ t, s.pathOk) ∧ ∀ s ∈ f, s.pathOk
 
 /-- rendering the `If` tag of a printed `<if case="e">body</if>` -/
 theorem renderIf_blk (cx : RCtx R) (cfg : ScanCfg R) (hg : cx.guardIndexRead = true)
@@ -663,16 +857,88 @@ theorem renderIf_blk (cx : RCtx R) (cfg : ScanCfg R) (hg : cx.guardIndexRead = t
         | succ f2 => simp only [ifCases, hemit0]
 
 
+theorem case_nonempty (cx : RCtx R) (cfg : ScanCfg R) (pre e post : List Nat) (t f : List Seg)
+    (hc : cx.content = pre ++ (IFOPEN ++ e ++ [34, 62] ++ post)) (hp : plainL e)
+    (hco : Blk.caseOk cfg.readNum (.ife e t f)) :
+    (itemsAt cfg cx.content (pre.length + 10) (pre.length + 10 + e.length)).isEmpty = false := by
+  obtain ⟨items0, hitems0⟩ := Qentem.Expr.parseTop_total ({ readNum := cfg.readNum } : ScanCfg R) (e ++ [34]) 0 e.length (by simp)
+  obtain ⟨items', hex, hrel⟩ := exprs_case cfg cx.content pre e post hc hp items0 hitems0
+  have hne := hco items0 hitems0
+  have : itemsAt cfg cx.content (pre.length + 10) (pre.length + 10 + e.length) = items' := by simp only [itemsAt, hex]
+  rw [this, ← hrel.isEmpty]
+  cases items0 with
+  | nil => exact absurd rfl hne
+  | cons x xs => rfl
+
+/-- rendering the `If` tag of a printed `<if case="e">then<else />else</if>` -/
+theorem renderIfe_blk (cx : RCtx R) (cfg : ScanCfg R) (hg : cx.guardIndexRead = true)
+    (hrn : cfg.readNum = cx.readNum) (st : RState) (B txt e : List Nat) (tb fb : List Seg) (post : List Nat)
+    (hc : cx.content = B ++ (txt ++ (printBlk (.ife e tb fb) ++ post)))
+    (hok : Blk.ok (.ife e tb fb)) (hco : Blk.caseOk cfg.readNum (.ife e tb fb))
+    (hpath : Blk.pathOk (.ife e tb fb)) (fuel : Nat) (hf : nTags tb + nTags fb + 4 ≤ fuel) :
+    renderTag cx (fuel + 1)
+      (Tag.ifT [IfCase.mk (itemsAt cfg cx.content ((B ++ txt).length + 10) ((B ++ txt).length + 10 + e.length))
+          (tagsOf cfg cx.content ((B ++ txt).length + 12 + e.length) tb) ((B ++ txt).length + 12 + e.length)
+          ((B ++ txt).length + 12 + e.length + (printSegs tb).length),
+        IfCase.mk [] (tagsOf cfg cx.content ((B ++ txt).length + 12 + e.length + (printSegs tb).length + 8) fb)
+          ((B ++ txt).length + 12 + e.length + (printSegs tb).length + 8)
+          ((B ++ txt).length + 12 + e.length + (printSegs tb).length + 8 + (printSegs fb).length)] (B ++ txt).length
+        ((B ++ txt).length + 12 + e.length + (printSegs tb).length + 8 + (printSegs fb).length + 5)) B.length st =
+      .ok (emit (emit st txt) (expBlk cx (.ife e tb fb)),
+        (B ++ txt).length + 12 + e.length + (printSegs tb).length + 8 + (printSegs fb).length + 5) := by
+  obtain ⟨hpe, hq34, htb, hfb⟩ := hok
+  obtain ⟨hpt, hpf⟩ := hpath
+  have hc1 : cx.content = (B ++ txt) ++ (IFOPEN ++ e ++ [34, 62] ++ (printSegs tb ++ ELSE ++ printSegs fb ++ IFEND ++ post)) := by
+    rw [hc]; simp [printBlk, List.append_assoc]
+  obtain ⟨_, hh2⟩ := case_hit cx cfg hrn (emit st txt) (B ++ txt) e _ hc1 hpe
+  have hie := case_nonempty cx cfg (B ++ txt) e _ tb fb hc1 hpe hco
+  have hsl : slice cx.content B.length (B ++ txt).length = .ok txt := by rw [hc]; exact slice_from B txt _
+  obtain ⟨v, hv, hvt⟩ := hh2 hie
+  simp only [renderTag, hsl, bind, Except.bind, hie, Bool.false_eq_true, if_false]
+  have hl2' : (B ++ txt ++ (IFOPEN ++ e ++ [34, 62])).length = (B ++ txt).length + 12 + e.length := by
+    simp [IFOPEN]; omega
+  obtain ⟨f, rfl⟩ : ∃ f, fuel = f + 2 := ⟨fuel - 2, by omega⟩
+  simp only [ifCases, hie, Bool.false_eq_true, if_false, hv, bind, Except.bind, pure, Except.pure, hvt, expBlk]
+  cases hhit : (isTrue (evalText (specOf cx) [] e 34) == some true) with
+  | true =>
+    simp only [if_true]
+    have hc2 : cx.content = (B ++ txt ++ (IFOPEN ++ e ++ [34, 62])) ++ ([] ++ (printSegs tb ++ (ELSE ++ printSegs fb ++ IFEND ++ post))) := by
+      rw [hc1]; simp [List.append_assoc]
+    have hl2 : (B ++ txt ++ (IFOPEN ++ e ++ [34, 62]) ++ ([] : List Nat)).length = (B ++ txt).length + 12 + e.length := by
+      rw [List.append_nil]; exact hl2'
+    have := render_segs_end cx cfg hg hrn (ELSE ++ printSegs fb ++ IFEND ++ post) tb (B ++ txt ++ (IFOPEN ++ e ++ [34, 62])) []
+      (emit st txt) (f + 1 - nTags tb) hc2 hpt htb (by omega)
+    rw [hl2, hl2', show f + 1 - nTags tb + nTags tb = f + 1 by omega] at this
+    rw [this]
+    simp [List.nil_append]
+  | false =>
+    simp only [Bool.false_eq_true, if_false, List.isEmpty_nil, if_true]
+    have hc3 : cx.content = (B ++ txt ++ (IFOPEN ++ e ++ [34, 62]) ++ printSegs tb ++ ELSE) ++ ([] ++ (printSegs fb ++ (IFEND ++ post))) := by
+      rw [hc1]; simp [List.append_assoc]
+    have hl3' : (B ++ txt ++ (IFOPEN ++ e ++ [34, 62]) ++ printSegs tb ++ ELSE).length =
+        (B ++ txt).length + 12 + e.length + (printSegs tb).length + 8 := by
+      rw [List.length_append, List.length_append, hl2']; simp [ELSE]
+    have hl3 : (B ++ txt ++ (IFOPEN ++ e ++ [34, 62]) ++ printSegs tb ++ ELSE ++ ([] : List Nat)).length =
+        (B ++ txt).length + 12 + e.length + (printSegs tb).length + 8 := by
+      rw [List.append_nil]; exact hl3'
+    have := render_segs_end cx cfg hg hrn (IFEND ++ post) fb (B ++ txt ++ (IFOPEN ++ e ++ [34, 62]) ++ printSegs tb ++ ELSE) []
+      (emit st txt) (f - nTags fb) hc3 hpf hfb (by omega)
+    rw [hl3, hl3', show f - nTags fb + nTags fb = f by omega] at this
+    rw [this]
+    simp [List.nil_append]
+
 /-- number of top-level tags / fuel the nested renders need -/
 def rcost : List Blk → Nat
   | [] => 0
   | .segs l :: r => nTags l + rcost r
   | .ifc _ _ :: r => 1 + rcost r
+  | .ife _ _ _ :: r => 1 + rcost r
 
 def rneed : List Blk → Nat
   | [] => 1
   | .segs _ :: r => rneed r
   | .ifc _ b :: r => nTags b + 4 + rneed r
+  | .ife _ t f :: r => nTags t + nTags f + 5 + rneed r
 
 theorem rneed_pos (bs : List Blk) : 1 ≤ rneed bs := by
   induction bs with
@@ -683,7 +949,7 @@ theorem render_blks (cx : RCtx R) (cfg : ScanCfg R) (hg : cx.guardIndexRead = tr
     (hrn : cfg.readNum = cx.readNum) (more : List (Tag R)) (endO : Nat) (post : List Nat) :
     ∀ (bs : List Blk) (B txt : List Nat) (st : RState) (fuel : Nat),
       cx.content = B ++ (txt ++ (printBlks bs ++ post)) → (∀ b ∈ bs, b.ok) → (∀ b ∈ bs, b.pathOk) →
-      rneed bs ≤ fuel →
+      (∀ b ∈ bs, b.caseOk cfg.readNum) → rneed bs ≤ fuel →
       ∃ (B2 txt2 : List Nat) (st2 : RState), cx.content = B2 ++ (txt2 ++ post) ∧
         (B2 ++ txt2).length = (B ++ txt).length + (printBlks bs).length ∧
         st2.out ++ txt2 = st.out ++ (txt ++ expBlks cx bs) ∧ st2.items = st.items ∧
@@ -692,11 +958,12 @@ theorem render_blks (cx : RCtx R) (cfg : ScanCfg R) (hg : cx.guardIndexRead = tr
   intro bs
   induction bs with
   | nil =>
-    intro B txt st fuel hc _ _ _
+    intro B txt st fuel hc _ _ _ _
     exact ⟨B, txt, st, by simpa [printBlks] using hc, by simp [printBlks], by simp [expBlks], rfl,
       by simp [tagsOfB, rcost]⟩
   | cons b r ih =>
-    intro B txt st fuel hc hok hpath hf
+    intro B txt st fuel hc hok hpath hcase hf
+    have hcaser : ∀ b ∈ r, b.caseOk cfg.readNum := fun x hx => hcase x (List.mem_cons_of_mem _ hx)
     have hokr : ∀ b ∈ r, b.ok := fun x hx => hok x (List.mem_cons_of_mem _ hx)
     have hpathr : ∀ b ∈ r, b.pathOk := fun x hx => hpath x (List.mem_cons_of_mem _ hx)
     have hb := hok b (List.mem_cons_self ..)
@@ -710,7 +977,7 @@ theorem render_blks (cx : RCtx R) (cfg : ScanCfg R) (hg : cx.guardIndexRead = tr
         (tagsOfB cfg cx.content ((B ++ txt).length + (printSegs l).length) r ++ more) endO (printBlks r ++ post)
         l B txt st (fuel + rcost r) (by rw [hc]; simp [printBlks, printBlk, List.append_assoc]) hbp hb
         (by have := rneed_pos r; omega)
-      obtain ⟨B2, txt2, st2, h1, h2, h3, h4, h5⟩ := ih B1 txt1 st1 fuel g1 hokr hpathr hf
+      obtain ⟨B2, txt2, st2, h1, h2, h3, h4, h5⟩ := ih B1 txt1 st1 fuel g1 hokr hpathr hcaser hf
       refine ⟨B2, txt2, st2, h1, ?_, ?_, by rw [h4, g4], ?_⟩
       · rw [h2, g2]; simp [printBlks, printBlk, List.length_append]; omega
       · rw [h3, ← List.append_assoc, g3]; simp [expBlks, expBlk, List.append_assoc]
@@ -725,7 +992,7 @@ theorem render_blks (cx : RCtx R) (cfg : ScanCfg R) (hg : cx.guardIndexRead = tr
       rw [show fuel + rcost r - 1 + 1 = fuel + rcost r by have := rneed_pos r; omega] at hrt
       obtain ⟨B2, txt2, st2, h1, h2, h3, h4, h5⟩ := ih (B ++ txt ++ printBlk (.ifc e body)) []
         (emit (emit st txt) (expBlk cx (.ifc e body))) fuel
-        (by rw [hc]; simp [printBlks, List.append_assoc]) hokr hpathr (by omega)
+        (by rw [hc]; simp [printBlks, List.append_assoc]) hokr hpathr hcaser (by omega)
       have hl : (B ++ txt ++ printBlk (.ifc e body) ++ ([] : List Nat)).length =
           (B ++ txt).length + 12 + e.length + (printSegs body).length + 5 := by
         rw [List.append_nil, List.length_append, hlenb]; omega
@@ -740,14 +1007,39 @@ theorem render_blks (cx : RCtx R) (cfg : ScanCfg R) (hg : cx.guardIndexRead = tr
         simp only [render, hrt, bind, Except.bind]
         rw [hl, hl'] at h5
         exact h5
+    | ife e tb fb =>
+      simp only [rneed] at hf
+      have hlenb := printBlk_ife_len e tb fb
+      have hrt := renderIfe_blk cx cfg hg hrn st B txt e tb fb (printBlks r ++ post)
+        (by rw [hc]; simp [printBlks, List.append_assoc]) hb (hcase _ (List.mem_cons_self ..)) hbp
+        (fuel + rcost r - 1) (by have := rneed_pos r; omega)
+      rw [show fuel + rcost r - 1 + 1 = fuel + rcost r by have := rneed_pos r; omega] at hrt
+      obtain ⟨B2, txt2, st2, h1, h2, h3, h4, h5⟩ := ih (B ++ txt ++ printBlk (.ife e tb fb)) []
+        (emit (emit st txt) (expBlk cx (.ife e tb fb))) fuel
+        (by rw [hc]; simp [printBlks, List.append_assoc]) hokr hpathr hcaser (by omega)
+      have hl : (B ++ txt ++ printBlk (.ife e tb fb) ++ ([] : List Nat)).length =
+          (B ++ txt).length + 12 + e.length + (printSegs tb).length + 8 + (printSegs fb).length + 5 := by
+        rw [List.append_nil, List.length_append, hlenb]; omega
+      have hl' : (B ++ txt ++ printBlk (.ife e tb fb)).length =
+          (B ++ txt).length + 12 + e.length + (printSegs tb).length + 8 + (printSegs fb).length + 5 := by
+        simpa using hl
+      refine ⟨B2, txt2, st2, h1, ?_, ?_, by simpa [emit] using h4, ?_⟩
+      · rw [h2, hl]; simp only [printBlks, List.length_append, hlenb]; omega
+      · rw [h3]; simp [emit, expBlks, List.append_assoc]
+      · simp only [tagsOfB, rcost, List.cons_append]
+        rw [show fuel + (1 + rcost r) = fuel + rcost r + 1 by omega]
+        simp only [render, hrt, bind, Except.bind]
+        rw [hl, hl'] at h5
+        exact h5
 
 /-- rendering the implied tags of a block template prints the documented expansion -/
 theorem renderTop_blks (cx : RCtx R) (cfg : ScanCfg R) (hg : cx.guardIndexRead = true)
     (hrn : cfg.readNum = cx.readNum) (bs : List Blk) (hc : cx.content = printBlks bs)
-    (hok : ∀ b ∈ bs, b.ok) (hpath : ∀ b ∈ bs, b.pathOk) (fuel : Nat) (hf : rneed bs ≤ fuel) :
+    (hok : ∀ b ∈ bs, b.ok) (hpath : ∀ b ∈ bs, b.pathOk) (hcase : ∀ b ∈ bs, b.caseOk cfg.readNum)
+    (fuel : Nat) (hf : rneed bs ≤ fuel) :
     renderTop cx (tagsOfB cfg cx.content 0 bs) (fuel + rcost bs) = .ok (expBlks cx bs) := by
   obtain ⟨B2, txt2, st2, h1, h2, h3, h4, h5⟩ := render_blks cx cfg hg hrn [] cx.content.length [] bs [] [] {} fuel
-    (by simpa using hc) hok hpath hf
+    (by simpa using hc) hok hpath hcase hf
   simp only [List.append_nil, List.length_nil] at h5 h2 h1
   simp only [renderTop, h5, bind, Except.bind]
   have hfp := rneed_pos bs
@@ -792,6 +1084,7 @@ def eneed : List Blk → Nat
   | [] => 1
   | .segs l :: r => l.length + eneed r
   | .ifc _ b :: r => b.length + 4 + eneed r
+  | .ife _ t f :: r => t.length + f.length + 5 + eneed r
 
 theorem eneed_pos (bs : List Blk) : 1 ≤ eneed bs := by
   induction bs with
@@ -820,6 +1113,16 @@ theorem expandList_blks (cx : RCtx R) : ∀ (bs : List Blk) (fuel : Nat), eneed 
       congr 1
       have h1 := expandList_segs cx (specOf cx) ⟨rfl, rfl, rfl, rfl, rfl, rfl⟩ body f (by omega)
       have h2 : expandBranches (specOf cx) f [] [] = [] := by cases f <;> simp [expandBranches]
+      rw [h1, h2]
+    | ife e tb fb =>
+      simp only [eneed] at hf
+      simp only [blksTpl, Blk.toTpls, expBlks, expBlk, List.cons_append, List.nil_append]
+      obtain ⟨f, rfl⟩ : ∃ f, fuel = f + 4 := ⟨fuel - 4, by omega⟩
+      simp only [expandList, expandTpl, expandBranches, if_true]
+      rw [ih (f + 3) (by omega)]
+      congr 1
+      have h1 := expandList_segs cx (specOf cx) ⟨rfl, rfl, rfl, rfl, rfl, rfl⟩ tb (f + 1) (by omega)
+      have h2 := expandList_segs cx (specOf cx) ⟨rfl, rfl, rfl, rfl, rfl, rfl⟩ fb f (by omega)
       rw [h1, h2]
 
 end
